@@ -751,6 +751,20 @@ pub fn tiny_scenarios() -> Vec<Scenario> {
         sc("parts-all", 1024, vec![Append(0, 1), Append(1, 1), Append(2, 1), Confirm(0, 1), Bsend, Confirm(1, 1), Bsend,
                Subscribe(parts(vec![(Key::Part(0), Some(0)), (Key::Part(1), Some(0)), (Key::Part(2), Some(0))], 2, 4))],
            vec![Confirm(2, 1), Append(1, 1), Confirm(1, 2)]),
+        // the AllPartitions MATCHER with an explicit per-partition map (form 3) and with map + fallback (form 5):
+        // several live events per partition after the history
+        sc("parts-all-map", 1024, vec![Append(0, 1), Append(1, 1), Append(2, 1), Confirm(0, 1), Bsend, Confirm(1, 1), Bsend,
+               Subscribe(parts(vec![(Key::Part(0), Some(0)), (Key::Part(1), Some(0)), (Key::Part(2), Some(0))], 3, 3))],
+           vec![Confirm(2, 1), Append(1, 1), Confirm(1, 2), Append(1, 1), Confirm(1, 3)]),
+        sc("parts-all-fallback", 1024, vec![Append(0, 1), Append(1, 1), Append(2, 1), Confirm(0, 1), Bsend, Confirm(1, 1), Bsend,
+               Subscribe(parts(vec![(Key::Part(0), Some(0)), (Key::Part(1), Some(0)), (Key::Part(2), Some(0))], 3, 5))],
+           vec![Confirm(2, 1), Append(1, 1), Confirm(1, 2), Append(0, 1), Confirm(0, 2)]),
+        // AllPartitions(n) on a node whose partitions hold exactly n events: the very first delivery is a LIVE event at the start position
+        sc("parts-all-empty", 1024, vec![Subscribe(parts(vec![(Key::Part(0), Some(0)), (Key::Part(1), Some(0)), (Key::Part(2), Some(0))], 3, 4))],
+           vec![Append(0, 1), Confirm(0, 1), Append(0, 1), Confirm(0, 2)]),
+        sc("parts-all-at-head", 1024, vec![Append(0, 1), Append(1, 1), Append(2, 1), Confirm(0, 1), Bsend, Confirm(1, 1), Bsend, Confirm(2, 1), Bsend,
+               Subscribe(parts(vec![(Key::Part(0), Some(1)), (Key::Part(1), Some(1)), (Key::Part(2), Some(1))], 3, 4))],
+           vec![Append(1, 1), Confirm(1, 2), Append(1, 1), Confirm(1, 3)]),
         sc("streams-mixed", 1024, vec![Append(0, 1), Append(0, 2), Append(1, 1), Confirm(0, 2), Bsend, Bsend,
                Subscribe(streams(vec![(Key::Stream(0, 1), Some(0)), (Key::Stream(0, 2), None), (Key::Stream(1, 1), Some(0))], 2, 0))],
            vec![Confirm(1, 1), Append(0, 2), Confirm(0, 3)]),
